@@ -148,6 +148,25 @@ fn idx_of(all: &[ResourceId], ids: Vec<ResourceId>) -> Vec<usize> {
     v
 }
 
+/// the access lists a system over `T` hands to the dispatcher (`System::accessor()` is a
+/// `StaticAccessor<T>`) must be the ones `T` reports statically
+pub fn accessor_agrees<'a, T: shred::SystemData<'a>>(rep: &mut Report, e: &Expect) {
+    use shred::Accessor;
+    let acc = match <shred::StaticAccessor<T> as Accessor>::try_new() {
+        Some(a) => a,
+        None => {
+            rep.fail(e, "StaticAccessor::try_new() returned None".into());
+            return;
+        }
+    };
+    for round in 0..2 {
+        if acc.reads() != T::reads() || acc.writes() != T::writes() {
+            rep.fail(e, format!("query {}: the accessor reports reads {:?} / writes {:?}, the type itself reports {:?} / {:?}", round, acc.reads(), acc.writes(), T::reads(), T::writes()));
+            return;
+        }
+    }
+}
+
 /// `decl` = (reads(), writes()); `fetch` fetches the type from the world, calls the probe while the
 /// value is alive, drops it; `setup` runs the type's setup
 pub fn check_type(
